@@ -13,24 +13,24 @@ PROP = dict(
     timeout={"quick": 600, "thorough": 3000},
 )
 MANIFEST = dict(
-    level="Machine-checked proof (Coq 8.16, no axioms) over Gallina models of the SSZ codecs, 41 Go types modelled. "
-          "THEOREMS (codec_ok = round trip + over-limit values rejected + decoded values within the declared limits + canonicity) for 33 types: "
-          "the 11 portalwire messages (Ping, Pong, FindNodes, FindContent, Offer, Nodes, ConnectionId, Content, Enrs, Accept, AcceptV1), "
-          "the 5 ping_ext payloads (ClientInfoAndCapabilities, BasicRadius, HistoryRadius, Error, Capabilities), "
-          "11 history-network containers (BlockProofHistoricalHashesAccumulator, the three BlockProofHistorical* proofs, BlockHeaderWithProof, "
-          "FindContentEphemeralHeadersKey, EphemeralHeaderPayload, OfferEphemeralHeaderKey, OfferEphemeralHeader, PortalReceipts - its round trip under the "
-          "hypothesis that the encoding fits 32-bit offsets -, HeaderRecord), the 4 fastssz beacon keys and the 2 fixed-size ztyp keys "
-          "(ContractBytecodeKey, HistoricalSummariesWithProofKey); the declared numeric limits as one theorem (64 keys against K_ContentKeysLimit, 2048-byte keys/ENRs, "
-          "32 ENRs, 256 distances, 1100-byte payload, 2-byte connection id); decoder totality (never Panic) for all 31+2 of these decoders in every variant. "
-          "Ten decoders were lax or wrong as found (zero first offset accepted by 5 list decoders, trailing bytes ignored by 4 fixed-size ztyp decoders, empty "
-          "EphemeralHeaderPayload / PortalReceipts not surviving their own round trip); they are repaired in /repo (fixes/C14-*.diff), the theorems are stated "
-          "against flags of the model that say which variant the tree has, and the as-found variants keep their weaker theorems plus `_refuted` lemmas with witnesses. "
-          "PARTIAL (correspondence only, no theorems): 8 state-network types built from ztyp Container / dynamic List / the Nibbles codec. Not modelled: beacon Forked* "
-          "wrappers, history block bodies, EpochAccumulator, SSZProof, MasterAccumulator. Every model is tied to the code on every run by differential execution of the real "
-          "Marshal/Unmarshal (Serialize/Deserialize) against the extracted model (41 types, about 650 cases each); struct tags and exported limits are compared with the model's literals.",
-    note="Trusted: Coq kernel, extraction + OCaml driver, Go harness; model/code agreement outside the generated inputs is tested, not proved. fastssz and ztyp "
-         "helpers are re-implemented in the model (validated by the same run). Decoders are run on fresh values only. PortalReceipts: list counts near the 16384 limit are "
-         "not exercised (model side too slow); ClientInfo well-formedness includes length < 2^32-40 (ztyp WriteOffset panics beyond). Repaired defects are recorded as "
-         "status=fixed in known_findings.d/C14.json and suppress nothing: the monitors fire with canonicity-zero-offset-<T> / canonicity-trailing-bytes-<T> / roundtrip-<T> if one returns.",
-    technique="Coq proof (combinator lemmas for offsets/lists/ztyp reader composed per type, iff-characterisation or closed form of each decoder) + model/implementation correspondence run with property monitors",
+    level="Machine-checked proof (Coq 8.16, no axioms) over Gallina models of the SSZ codecs: 44 Go types plus the fork-digest dispatch of the 5 beacon Forked* wrappers, all with theorems. "
+          "codec_ok (round trip + over-limit values rejected + decoded values within the declared limits + canonicity) for: the 11 portalwire messages; the 5 ping_ext payloads; "
+          "14 history-network containers (the accumulator/roots/summaries proofs, BlockHeaderWithProof, the ephemeral-header keys and payload, PortalReceipts, HeaderRecord, "
+          "BlockBodyLegacy, PortalBlockBodyShanghai, EpochAccumulator); the 4 fastssz beacon keys and HistoricalSummariesWithProofKey; the 9 state-network types (the three content keys, "
+          "TrieNode, TrieProof, ContractBytecodeContainer and the three *WithProof containers). The ztyp-based types are derived from generic theorems about the library combinators "
+          "(Proofs/Ztyp.v: a Container reads exactly what the encoder writes, for any exact field decoders; dynamic lists; totality). Forked* wrappers: unknown digests rejected, the digest "
+          "selects the fork's payload type, round trip and canonicity of digest||payload for any payload codec satisfying the stated library contract (Section hypotheses: round trip, "
+          "re-encoding is a prefix of what was read). The declared numeric limits are one theorem (64 keys against K_ContentKeysLimit, 2048-byte keys/ENRs, 32 ENRs, 256 distances, 1100-byte "
+          "payload, 2-byte connection id). Decoder totality (never Panic) for every modelled decoder in every variant (C14_decoders_total, C14_decoders_total_state, C14_Forked_total). "
+          "Round trips of PortalReceipts / the block bodies / the *WithProof containers carry the explicit hypothesis that the encoding fits 32-bit offsets. "
+          "Eighteen decoders were lax or wrong as found (zero first offset, trailing bytes after fixed-size ztyp values, empty list not round-tripping); all are repaired in /repo "
+          "(fixes/C14-*.diff); theorems are stated against model flags that say which variant the tree has; as-found variants keep `_refuted` lemmas with witnesses. "
+          "Not modelled: LightClientUpdateRange, SSZProof, MasterAccumulator, the zrnt payload codecs themselves (opaque). Every model is tied to the code on every run by differential "
+          "execution of the real Marshal/Unmarshal (Serialize/Deserialize) against the extracted model (about 23,000 cases per quick run); struct tags, exported limits and fork digests are "
+          "compared with the model's literals.",
+    note="Trusted: Coq kernel, extraction + OCaml driver, Go harness; model/code agreement outside the generated inputs is tested, not proved. fastssz and ztyp helpers are re-implemented "
+         "in the model (validated by the same run); the zrnt payload codecs behind the Forked* wrappers are Section variables whose per-input values the harness obtains by calling the library. "
+         "Decoders are run on fresh values only. List counts near 16384 (receipts, transactions) and the 16 MiB item limit are not exercised. Observation (not a C14 defect, not changed): "
+         "ForkedHistoricalSummariesWithProof has no digest switch - every fork digest is accepted. Repaired defects are status=fixed in known_findings.d/C14.json and suppress nothing.",
+    technique="Coq proof (combinator lemmas for offsets/lists, generic invariants of the ztyp reader/Container/List, iff-characterisation or closed form of each decoder) + model/implementation correspondence run with property monitors",
 )
